@@ -67,6 +67,7 @@ EPOCH_SHORTCUTS = {
 MAX_EARLY_DATA = 0xFFFFFFFF
 MAX_REMOTE_CHALLENGES = 32
 MAX_LOCAL_CHALLENGES = 5
+MAX_NETWORK_PATHS = 8
 SECRETS_LABELS = [
     [
         None,
@@ -1081,6 +1082,9 @@ class QuicConnection:
                 network_path.is_validated = True
             if network_path not in self._network_paths:
                 self._network_paths.append(network_path)
+                # bound the number of paths a peer can make us remember
+                while len(self._network_paths) > MAX_NETWORK_PATHS:
+                    self._network_paths.pop(1)
             idx = self._network_paths.index(network_path)
             if idx and not is_probing and packet_number > space.largest_received_packet:
                 self._logger.debug("Network path %s promoted", network_path.addr)
